@@ -214,6 +214,15 @@ def run(tier):
         a, b = odd_case(r)
         cases.append((a, b, 'odd'))
 
+    # long inputs (well beyond any size the small families reach): identical line arrays, the same text with LF against CRLF, one changed line
+    for n in (2001, 2500) if tier == 'quick' else (2000, 2001, 2500, 4097):
+        lines = [f'line {i % 97} {i}' for i in range(n)]
+        cases.append((lines, list(lines), 'long'))
+        cases.append(('\n'.join(lines), '\r\n'.join(lines), 'long'))
+        changed = list(lines)
+        changed[n // 2] = 'changed'
+        cases.append((lines, changed, 'long'))
+
     maxlen = 4 if tier == 'quick' else 6
     nsh = core.NPROC
     payload = [{'left': a, 'right': b} for a, b, _ in cases]
@@ -314,6 +323,8 @@ def run(tier):
             by_tag.setdefault(c[2], []).append(i)
         pick = []
         for tag, idxs in by_tag.items():
+            if tag == 'long':
+                continue            # thousands of lines: the implementation and the direct oracle only (too large for a Coq literal run)
             if len(idxs) > budget.get(tag, 300):
                 idxs = sorted(r.sample(idxs, budget[tag]))
             pick += idxs
